@@ -253,5 +253,5 @@ def run(args):
     rep.trusted = ["clang AST", "sympy polynomial arithmetic"]
     rep.assumptions = ["the end-point identities are decided as identities of group terms (R-END); their floating-point residual is not",
                        "NOT decided: equivariance and the geodesic law at interior parameters as numerical statements"]
-    rep.checker_cmd = "manif-sa plugin (mode=funcs) + engine/check_c15.py"
+    rep.checker_cmd = "manif-sa plugin (mode=funcs) + engine/check_c15.py + termeval.py (R-FWD) + endpoint.py (R-END)"
     return rep.finish()
